@@ -66,6 +66,8 @@ namespace cs
                     p.add("mvw", {(long long)r.below(7), (long long)r.below(300), (long long)r.below(100)});
                 else if (r.chance(1, 25))
                     p.add("mx", {});
+                else if (profile == "C08" && r.chance(1, 12))
+                    p.add("tdfw", {(long long)r.below(300), (long long)r.below(12), (long long)r.below(5)});
                 else if (grow)
                 {
                     // sizes around thresholds / max node sizes / big
